@@ -4,6 +4,22 @@ from __future__ import annotations
 REGISTRY = {
     'C13': {
         'level': 'proof',
+        'technique': 'contract-based deductive verification (VCs from the '
+                     'real source, z3) + bounded stand-in of the same '
+                     'contracts',
+        'level_text': 'every DetachedServer client-facing handler and the '
+                      'CLIENT dispatch of handle_message are under contract '
+                      '(no exception escapes, Inv_srv kept, answer only to '
+                      'the requester, other clients untouched, answer table '
+                      'per task state); all obligations are discharged by '
+                      'z3 for every state and request, hence for every '
+                      'request history by induction over handled messages',
+        'level_note': 'assumes the external models of Connection/Queue, '
+                      'atomic handlers on the server thread, fresh uuid per '
+                      'submitted task, the assumed contract of '
+                      'schedule_tasks (discharged under C15); worker-side '
+                      'error forwarding and the client library are covered '
+                      'by the bounded part only',
         'parts': [
             {'kind': 'bounded', 'module': 'contracts.c13'},
             {'kind': 'pyvc', 'module': 'contracts.c13'},
@@ -21,6 +37,46 @@ REGISTRY = {
                        'bounded stand-in of the same contracts',
         'trusted_base': [
             'contracts/runtime_prog.py external models (Connection, Queue)',
+        ],
+    },
+    'C15': {
+        'level': 'proof',
+        'technique': 'contract-based deductive verification (VCs from the '
+                     'real source, z3, sum lemmas by induction) + bounded '
+                     'stand-in of the same contracts',
+        'level_text': 'scheduler functions of ServerBase / Manager / '
+                      'RuntimeEmployee under contract: idle counters stay in '
+                      '[0,total] and equal the sum over employees so the '
+                      "runtime's own assertion cannot fire, every task of a "
+                      'batch is forwarded in exactly one message per hop, '
+                      'id-range arithmetic picks the unique responsible '
+                      'employee; discharged by z3 for all inputs',
+        'level_note': 'assign_tasks (random.shuffle, sorted, swap loop) is '
+                      'used through an assumed contract that is only '
+                      'checked bounded; preconditions about the peer (idle '
+                      'count <= total, receipt names a cached batch) are '
+                      'environment assumptions; "idle belief exact at '
+                      'quiescence" and "num_tasks never negative" need '
+                      'global history and are not decided',
+        'parts': [
+            {'kind': 'bounded', 'module': 'contracts.c15'},
+            {'kind': 'pyvc', 'module': 'contracts.c15'},
+        ],
+        'rule': 'A: obligations of the scheduler functions (idle/total '
+                'counters as sums over employees with lemmas proved by '
+                'induction in pyvc/prelude.py; slices; id arithmetic), all '
+                'paths; B: the same contracts on real ServerBase/Manager '
+                'objects with 1-2 (quick) / 1-3 (thorough) employees, every '
+                'idle count in [0,total], caches of length 0-2(3), batches '
+                'of 0-3 tasks; non-trivial = the call sent a message, '
+                'returned a value, raised or changed a field',
+        'explanation': 'contract-based deductive verification of the '
+                       'scheduler bookkeeping (pyvc/z3) plus bounded '
+                       'stand-in of the same contracts',
+        'trusted_base': [
+            'contracts/runtime_prog.py external models (Connection, Queue)',
+            'assumed contract of ServerBase.assign_tasks (bounded check '
+            'only)',
         ],
     },
 }
